@@ -411,6 +411,11 @@ func (m *mux) Close() {
 	}
 	m.dpool.Close()
 	m.spool.Close()
+	if dead, ok := m.dead.(*pipe); ok {
+		// makeMux reports a failed dial through the shared dead wire's error;
+		// once the mux is closed, calls must fail with ErrClosing again.
+		dead.error.Store(errClosing)
+	}
 }
 
 func (m *mux) Addr() string {
